@@ -569,6 +569,45 @@ impl Ctx {
                 }
                 ev.insert("ks".into(), op["ks"].clone());
                 if let Some(vs) = op.get("vs") { ev.insert("vs".into(), vs.clone()); }
+                // typed maps through their integer key type (Q = u64 / i64), not through the encoded bytes
+                if op.get("via").and_then(|v| v.as_str()) == Some("int") {
+                    let mut ints: Vec<u64> = vec![];
+                    for k in op["ks"].as_array().ok_or("ks")? {
+                        ints.push(t.keys.int_of(k.as_i64().unwrap()).ok_or("key has no int")?);
+                    }
+                    let sints: Vec<i64> = ints.iter().map(|x| *x as i64).collect();
+                    ev.insert("via".into(), json!("int"));
+                    let e = self.maps.get_mut(&h).ok_or("no such handle")?;
+                    macro_rules! int_bulk { ($m:expr, $xs:expr) => { {
+                        let refs: Vec<_> = $xs.iter().collect();
+                        match name {
+                            "bulk_get" => $m.bulk_get(&refs).map(|v| Value::Array(v.iter().map(|x| json!(val_id(t, x))).collect())),
+                            "bulk_get_string" => $m.bulk_get_string(&refs).map(|v| Value::Array(v.into_iter().map(|x| json!(val_id(t, &x.map(|s| s.into_bytes())))).collect())),
+                            "bulk_del" => $m.bulk_delete(&refs).map(|v| Value::Array(v.iter().map(|x| json!(val_id(t, x))).collect())),
+                            "bulk_del_string" => $m.bulk_delete_string(&refs).map(|v| Value::Array(v.into_iter().map(|x| json!(val_id(t, &x.map(|s| s.into_bytes())))).collect())),
+                            "bulk_put" => {
+                                let pairs: Vec<_> = refs.iter().zip(vbs.iter()).map(|(k, v)| (*k, &v[..])).collect();
+                                $m.bulk_put(&pairs).map(|_| Value::Null)
+                            }
+                            "bulk_put_string" => {
+                                let pairs: Vec<_> = refs.iter().zip(vbs.iter()).map(|(k, v)| (*k, String::from_utf8_lossy(v).to_string())).collect();
+                                $m.bulk_put_string(&pairs).map(|_| Value::Null)
+                            }
+                            _ => {
+                                let pairs: Vec<_> = $xs.iter().zip(vbs.iter()).map(|(k, v)| (From::from(*k), v.clone())).collect();
+                                $m.put_from_iter(pairs.into_iter()).map(|_| Value::Null)
+                            }
+                        }
+                    } } }
+                    let r: std::io::Result<Value> = match &mut e.h {
+                        MapH::U64(m) => int_bulk!(m, ints),
+                        MapH::Vu64(m) => int_bulk!(m, ints),
+                        MapH::I64(m) => int_bulk!(m, sints),
+                        _ => return Err("via=int needs a typed map".into()),
+                    };
+                    self.set_res(ev, r, |v| v);
+                    return Ok(());
+                }
                 let e = self.maps.get_mut(&h).ok_or("no such handle")?;
                 let krefs: Vec<&[u8]> = kbs.iter().map(|k| &k[..]).collect();
                 let r: std::io::Result<Value> = with_map!(&mut e.h, m => match name {
@@ -590,6 +629,31 @@ impl Ctx {
                     }
                 });
                 self.set_res(ev, r, |v| v);
+            }
+            "put_from_iter_self" => {
+                // the "rewrite everything" idiom: the map's own iterator (or the iterator of another handle of
+                // the same map, "src") feeds put_from_iter; the values are written back unchanged, so the
+                // contents must stay what they were
+                let h = op["h"].as_i64().ok_or("h")?;
+                let src = op.get("src").and_then(|x| x.as_i64()).unwrap_or(h);
+                let flavour = op.get("flavour").and_then(|f| f.as_str()).unwrap_or("iter").to_string();
+                ev.insert("src".into(), json!(src));
+                let srch = self.maps.get(&src).ok_or("no such handle")?.h.clone_h();
+                let e = self.maps.get_mut(&h).ok_or("no such handle")?;
+                macro_rules! selfput { ($m:expr, $s:expr) => { match flavour.as_str() {
+                    "iter_mut" => { let mut s2 = $s; $m.put_from_iter(s2.iter_mut()) }
+                    "into_iter" => $m.put_from_iter($s.into_iter()),
+                    _ => $m.put_from_iter($s.iter()),
+                } } }
+                let r: std::io::Result<()> = match (&mut e.h, srch) {
+                    (MapH::Str(m), MapH::Str(s)) => selfput!(m, s),
+                    (MapH::Bytes(m), MapH::Bytes(s)) => selfput!(m, s),
+                    (MapH::I64(m), MapH::I64(s)) => selfput!(m, s),
+                    (MapH::U64(m), MapH::U64(s)) => selfput!(m, s),
+                    (MapH::Vu64(m), MapH::Vu64(s)) => selfput!(m, s),
+                    _ => return Err("put_from_iter_self: handles of different key types".into()),
+                };
+                self.set_res(ev, r.map(|_| Value::Null), |v| v);
             }
             "dump" => {
                 // contents through the API: len, get of the listed key ids (default: all table keys)
